@@ -165,6 +165,13 @@ static int encode_special_opd(struct instr *instrc, int m, int i) {
     if ((MODE_MASK & instrc->opd[m].reg) == ext64)
       instrc->hex.rex |= rex_ + rex_b;
     FAIL_IF(get_reg(instrc, &instrc->opd[m], reg_r));
+    // extended (r8-r15) base and index registers need REX.B and REX.X
+    if (instrc->mem_disp) {
+      if (instrc->opd[m].reg & REG_RB)
+        instrc->hex.rex |= rex_ + rex_b;
+      if (instrc->opd[m].index & REG_RB)
+        instrc->hex.rex |= rex_ + rex_x;
+    }
     instrc->rd_offset = (instrc->opd[m].reg & VALUE_MASK);
     if (instrc->mem_disp)
       instrc->rd_offset |= instrc->mod_disp;
